@@ -27,6 +27,32 @@ CHECKS = {
         "strings embedding SHA-256 digests are a recorded known finding (KF-C05-digest-string) and excluded by construction.",
         "DESIGN.md 5/C05",
     ),
+    "C13": (
+        "exploration",
+        "exhaustive enumeration of 1-2-parameter callee shapes x bindings x all spellings + Hypothesis for 3-4 parameters; "
+        "oracle: one signature per binding over spellings and routes, distinct signatures for distinct bindings",
+        "All spellings of each generated binding are evaluated by real dds on both routes (direct values / literals in "
+        "evaluated source) and the captured signatures are grouped; exhaustive for the small shapes.",
+        "Trusted: the CaptureStore wrapper (public Store interface) reports the signature dds commits; in-source literals are limited to ast.Constant.",
+        "DESIGN.md 5/C13",
+    ),
+    "C12": (
+        "exploration",
+        "Hypothesis-generated operation sequences; lock-step differential against the bare store; weakref census for the bound",
+        "Operation sequences over a small key pool are applied to the cache-wrapped and to a bare store and every answer "
+        "is compared; live fetched objects are counted with weakrefs after every step.",
+        "Trusted: the bare store as reference; gc.collect() frees unreferenced objects (CPython refcounting).",
+        "DESIGN.md 5/C12",
+    ),
+    "C08": (
+        "exploration",
+        "Hypothesis-generated operation sequences against a dictionary model (model-based testing), 4 store kinds; "
+        "exhaustive dot-path sub-domain; directory scan for escapes",
+        "Store operations are interpreted against a dict model with a full scan after each commit / reopen; the path pool is "
+        "seeded with concatenation-ambiguous pairs; every '.'/'..'/empty-segment path of <=3 segments is committed next to its neighbours.",
+        "Trusted: the dict model; the fake dbutils for DBFS; prefix-related paths are not generated (undocumented).",
+        "DESIGN.md 5/C08",
+    ),
 }
 
 NOT_YET = {}
